@@ -27,6 +27,7 @@ func dslValidationFiles(f string) bool {
 }
 
 func init() {
+	reg("C19", ruleCommonTypeMap, ruleEmitterSiblings, ruleParenthesisation, ruleOperatorTokens, rulePromotionNotBypassed)
 	reg("C07", ruleStateMachine)
 	reg("C02", ruleJsonKinds, ruleUnionTagDecision, ruleKindTests, ruleOptionalFieldSymmetry)
 	reg("C14", rulePlan, ruleRecordOrder, ruleOptionalFieldSymmetry)
